@@ -4,6 +4,10 @@ import json, os
 HERE = os.path.dirname(os.path.dirname(os.path.abspath(__file__)))
 
 CLAIMED = {
+ 'C01': ('table closure (reST docs, parser vocabulary, call-graph consumption), guarded-effect tables (control dependence of every store and warning) queried for the documented rows, CFG reachability for the (not) override, symbolic writer table for the emission mapping',
+         'Decides for every callable the structural necessary conditions: every documented parameter/return annotation is accepted and consumed; each annotation stores the documented model attribute under its validity guard (direction, caller-allocates, nullable/optional/not, skip, attributes, transfer incl. floating->none, array length/fixed-size/zero-terminated, length parameter follows the array direction, scope/closure/destroy, type/element-type); nothing stores nullable after the (not) block; every invalid annotation reaches a warning and no store; the writer emits each attribute under the documented XML key and computes indices only through raising lookups on the same parent; zero-terminated is explicit whenever the reader default would differ.',
+         'Not decided: results of type resolution for (type)/(element-type) strings, interaction of passes, anything depending on the concrete C type. Trusted: CPython ast; the oracle rows in gilint/props/c01.py (taken from the property text and giannotations.rst).',
+         '§4 C01'),
  'C12': ('producer/consumer table comparison: printf fragments of gdump.c (clang AST, with guards and argument types) vs tag-flow model of gdumpparser.py reads; argument-binding swap lint; guard-shape rules',
          'Decides for every dump: each attribute gdumpparser reads with [] is written unconditionally by gdump.c and everything written is read (or reviewed); G_PARAM_* equal GLib ABI values, each property flag is an independent bit test reaching the like-named Property argument; signal flags and run phases agree by name with the GLib flag guarding them in gdump.c; integers are printed with the signedness of their C type; boxed and pointer types pair with records and unions alike; class and class struct are linked both ways; get-type functions of registered types are removed; the parent chain is kept whole and walked to the first resolvable parent; vfuncs only where the first parameter is the instance.',
          'Not decided: any concrete merge, default-value text, type resolution of dumped names. Trusted: clang-14, stub GObject types (GEnumValue.value gint, GFlagsValue.value guint as in GLib), CPython ast.',
